@@ -75,6 +75,7 @@ def stepLineK (k : KSt) (toks : List String) : KSt × String :=
     | some t, some c => let k' := kInit { text := t, cur := c }; (k', encK k')
     | _, _ => (k, "bad-op")
   | ["kpreset"] => let k' := kpReset k; (k', encK k')
+  | ["cpr"] => let k' := cprResponse k; (k', encK k')
   | "call" :: h :: r0 :: r1 :: atoms =>
     match decNat h, decBool r0, decBool r1, parseAtoms atoms with
     | some h, some r0, some r1, some body =>
@@ -97,6 +98,9 @@ def stepLine (v : VSt) (toks : List String) : VSt × String :=
     match parseVKey name with
     | some key => let v' := vkey v key; (v', encK v'.k ++ (if v'.ins then " I" else " N"))
     | none => (v, "bad-op")
+  | ["vcpr"] =>
+    let v' : VSt := { k := cprResponse v.k, ins := v.ins }
+    (v', encK v'.k ++ (if v'.ins then " I" else " N"))
   | _ => let p := stepLineK v.k toks; ({ k := p.1, ins := v.ins }, p.2)
 
 def main : IO Unit := runS stepLine (vInit { text := [], cur := 0 })
